@@ -37,9 +37,9 @@ LEVEL_TEXT = ("Theorems (Lean 4, all line lists / all texts / any number of cycl
               "the same tree; a str with exactly one line is treated as a path (FileNotFoundError if nothing is there), '' is "
               "rejected; a path yields universal-newline translation followed by the \\r*\\n split, which is the unique LF-free "
               "splitting of the translated text (trailing empty element kept); from the first save on, any number of load/save "
-              "cycles writes the same text and reads the same lines (os.linesep LF or CRLF; ignore_blank_lines off: proved "
-              "outright; on: proved from three stated facts about the tree model's kept lines). Model tied to CiscoConfParse by "
-              "differential runs with real temp files on every check.")
+              "cycles writes the same text and reads the same lines, for every tree configuration incl. ignore_blank_lines and "
+              "os.linesep LF or CRLF. The reader/writer constants of /repo are regenerated and proved equal to the modelled ones. "
+              "Model tied to CiscoConfParse by differential runs with real temp files on every check.")
 LEVEL_NOTE = ("Trusted: Lean kernel, axioms propext/Classical.choice/Quot.sound, the harness. Modelled not verified: text-mode open() "
               "(universal newlines on read, '\\n' -> os.linesep on write) as pure functions on decoded text; encodings are outside the "
               "model (the harness covers utf-8 and latin-1 content); the file system is a function parameter.")
